@@ -70,7 +70,10 @@ fn run(input: RunInput) -> ScenFuture {
         });
         let svc = Svc::new(&w, plan);
         let h = svc.handle();
-        let server = w.start_node(w.spec(2, cfg.clone()), svc).unwrap();
+        // half of the servers dispatch through anemo's typed-RPC path (rpc::server::Rpc::unary), the
+        // way generated servers do
+        let typed = w.flag("typed_server_path", 0.5);
+        let server = if typed { w.start_node(w.spec(2, cfg.clone()), TypedSvc(svc)).unwrap() } else { w.start_node(w.spec(2, cfg.clone()), svc).unwrap() };
         let client = Arc::new(w.start_node(w.spec(1, cfg.clone()), Svc::echo(&w)).unwrap());
         watch_events(&w, &client);
         if client.net.connect_with_peer_id(server.addr, server.peer_id).await.is_err() {
